@@ -1228,9 +1228,19 @@ impl VM {
         }
     }
 
+    /// Turns integer overflow or division by zero into a build error.
+    fn checked(result: Option<i64>, op: &str, pos: &Position) -> Result<i64, Error> {
+        result.ok_or_else(|| {
+            Error::new(
+                format!("Integer overflow or division by zero in {} expression", op).into(),
+                pos.clone(),
+            )
+        })
+    }
+
     fn mul(&self, left: &Value, right: &Value, pos: &Position) -> Result<Primitive, Error> {
         Ok(match (left, right) {
-            (P(Int(i)), P(Int(ii))) => Int(i * ii),
+            (P(Int(i)), P(Int(ii))) => Int(Self::checked(i.checked_mul(*ii), "*", pos)?),
             (P(Float(f)), P(Float(ff))) => Float(f * ff),
             _ => {
                 return Err(Error::new(
@@ -1243,7 +1253,7 @@ impl VM {
 
     fn div(&self, left: &Value, right: &Value, pos: &Position) -> Result<Primitive, Error> {
         Ok(match (left, right) {
-            (P(Int(i)), P(Int(ii))) => Int(i / ii),
+            (P(Int(i)), P(Int(ii))) => Int(Self::checked(i.checked_div(*ii), "/", pos)?),
             (P(Float(f)), P(Float(ff))) => Float(f / ff),
             _ => {
                 return Err(Error::new(
@@ -1256,7 +1266,7 @@ impl VM {
 
     fn sub(&self, left: &Value, right: &Value, pos: &Position) -> Result<Primitive, Error> {
         Ok(match (left, right) {
-            (P(Int(i)), Value::P(Int(ii))) => Int(i - ii),
+            (P(Int(i)), Value::P(Int(ii))) => Int(Self::checked(i.checked_sub(*ii), "-", pos)?),
             (P(Float(f)), Value::P(Float(ff))) => Float(f - ff),
             _ => {
                 return Err(Error::new(
@@ -1269,7 +1279,7 @@ impl VM {
 
     fn modulus(&self, left: &Value, right: &Value, pos: &Position) -> Result<Primitive, Error> {
         Ok(match (left, right) {
-            (P(Int(i)), Value::P(Int(ii))) => Int(i % ii),
+            (P(Int(i)), Value::P(Int(ii))) => Int(Self::checked(i.checked_rem(*ii), "%%", pos)?),
             (P(Float(f)), Value::P(Float(ff))) => Float(f % ff),
             _ => {
                 return Err(Error::new(
@@ -1282,7 +1292,7 @@ impl VM {
 
     fn add(&self, left: &Value, right: &Value, pos: &Position) -> Result<Value, Error> {
         Ok(match (left, right) {
-            (P(Int(i)), Value::P(Int(ii))) => P(Int(i + ii)),
+            (P(Int(i)), Value::P(Int(ii))) => P(Int(Self::checked(i.checked_add(*ii), "+", pos)?)),
             (P(Float(f)), Value::P(Float(ff))) => P(Float(f + ff)),
             (P(Str(s)), Value::P(Str(ss))) => {
                 let mut ns = String::new();
